@@ -16,6 +16,19 @@ CLAIMS = {
             'the derivatives of the evaluator term; C01.e single segment index; C01.f bilinear form of the 2D evaluator; '
             'C01.g unit factors applied before domain/coefficients',
             'monotonicity/no-overshoot including floating-point rounding; behaviour in the 1% extrapolation zone beyond the cubic form'),
+    'C04': ('guard truth tables with C integer semantics + loop-nest schema extraction (symbolic comprehension/sum summaries)',
+            'C04.a conformability predicate of all 16 shape-guarded Vector/Matrix operations equals the spec on the full table of shapes 0..4; '
+            'C04.b element term, loop bounds and result shape of ~35 routines (sum, difference, scalar and matrix products, matrix-vector, '
+            'vector-matrix, outer, dot, cross, transpose, trace, norms, predicates, Sub_Matrix, Delete_/Return_ Row/Column, diagonal/identity) equal their definitions; '
+            'C04.c operator spellings delegate to the named forms; C04.d shape guards are diagnostic exits dominating the loops',
+            'floating-point exactness claims (A*I equals A exactly), the block-matrix constructor offsets'),
+    'C10': ('guard-predicate extraction over the statement tree + complete truth tables (C unsigned wrap-around) + exit-site census',
+            'C10.a for 56 guarded entry points the extracted exit predicate equals "request is meaningless" on the complete truth table of its input terms; '
+            'C10.b every guard is a diagnostic exit (non-empty message, failure status); C10.c the guard dominates the protected uses (unchecked subscripts, '
+            'iterator arithmetic, protected calls); C10.d every other noreturn call site of the library is classified (loop-guard, data-guard, give-up, environment) - '
+            'an unclassified new site is ANALYSIS-BROKEN, not a pass; C10.e element-wise guards (strictly increasing abscissae over all neighbours, ragged rows, '
+            'Locate tolerance uses the matching edge interval)',
+            'absence of out-of-bounds accesses outside the enumerated protected uses; exits of the give-up class on valid input; sanitizer-visible UB in arithmetic'),
 }
 
 NOT_BUILT = 'check not built yet (framework under construction; DESIGN.md section 3 describes the planned rules)'
